@@ -4,8 +4,8 @@
 #include "common.h"
 
 /* ---- regime observation ------------------------------------------------ */
-static unsigned long regime;            /* bit set per routine entered during the case */
-static long fft_kind, fft_depth, fft_w; /* last FFT entry: 1 trunc, 2 mfa */
+static __thread unsigned long regime;            /* bit set per routine entered during the case */
+static __thread long fft_kind, fft_depth, fft_w; /* last FFT entry: 1 trunc, 2 mfa */
 enum { R_BASECASE, R_KARA, R_TOOM3N, R_TOOM3, R_TOOM32, R_TOOM42, R_TOOM4N, R_TOOM4, R_TOOM53, R_TOOM8H,
        R_SQRBASE, R_KARASQR, R_TOOM3SQR, R_TOOM4SQR, R_TOOM8SQR, R_FFTMAIN, R_FFTTRUNC, R_FFTMFA };
 static const char *rnames[] = { "basecase", "kara", "toom3n", "toom3", "toom32", "toom42", "toom4n", "toom4", "toom53", "toom8h",
